@@ -5,7 +5,7 @@
 d=$1; shift
 W=${SEEDRUN:-/var/tmp/wt/seedrun}
 if [ ! -d $W ]; then git -C /verif worktree add -q --detach $W HEAD || exit 1; fi
-(cd $W && git checkout -q --detach $(git -C /verif rev-parse HEAD) && git checkout -q -- . && python3 tools/gen_registry.py >/dev/null)
+(cd $W && git checkout -q -f --detach $(git -C /verif rev-parse HEAD) && git checkout -q -- . && python3 tools/gen_registry.py >/dev/null)
 S=/var/tmp/seedtry.$$
 rsync -a --exclude .git --exclude '*.o' --exclude '*.lo' --exclude '.libs' /repo/ $S/ || exit 1
 (cd $S && patch -p1 -s < "$d/patch.diff") || { echo "patch does not apply: $d"; rm -rf $S; exit 1; }
